@@ -53,6 +53,9 @@ def _all():
     # contradiction in a component that shares no variable with most objectives; small-magnitude optima with long decimals
     for g in ([[{"i": -1}, -1], [{"o": 1}, 3]], [[{"i": -1}, -1], [{"o": 1, "p": 1}, 3], [{"p": -1}, 0]], [[{"p": 1}, 0], [{"p": -1}, -1], [{"o": 1}, 2]]):
         yield {"fam": "disc", "a": [[{"i": 1}, 0]] if "i" in g[0][0] else [], "g": g}
+    for vf in ([{}, -1], [{}, 1]):
+        yield {"fam": "disc", "a": [], "g": [vf, [{"o": 1}, 5], [{"o": -1, "i": 1}, 0]]}
+        yield {"fam": "disc", "a": [[{"i": 1}, 2]], "g": [[{"o": 1, "i": -1}, 0], vf]}
     for k in (300, 30, 7, 3000):
         yield {"fam": "scaled", "a": [[{"i": -1}, 0]], "g": [[{"o": k}, 1], [{"o": -k, "i": 7}, 0], [{"p": 3, "o": -1}, 0], [{"p": -1}, 1]]}
         yield {"fam": "scaled", "a": [], "g": [[{"o": k, "i": 1}, 1], [{"i": -1}, 0], [{"o": -1}, 0], [{"p": 1, "o": -7}, 0], [{"p": -1}, 0]]}
